@@ -394,7 +394,8 @@ func completeQuery(q *query.Query, opts bugOptions) error {
 
 	q.Author = append(q.Author, opts.authorQuery...)
 	for _, str := range opts.metadataQuery {
-		tokens := strings.Split(str, "=")
+		// the value may contain "=" itself (an URL with a query string)
+		tokens := strings.SplitN(str, "=", 2)
 		if len(tokens) < 2 {
 			return fmt.Errorf("no \"=\" in key=value metadata markup")
 		}
